@@ -37,14 +37,14 @@ static void c09_acc_check(Ctx& ctx, const Args& a)
 }
 static SweepInfo c09_acc_sweep(Ctx& ctx, const Clause& cl)
 {
-  SweepInfo si; bool thorough = ctx.tier == "thorough"; int64_t stride = thorough ? 1 : 4, phase = thorough ? 0 : (int64_t)(ctx.seed % stride);
-  si.exhaustive = thorough; si.note = thorough ? "every raw x in [-411774, 411774] for sin and cos" : strf("every %lld-th raw x in [-411774, 411774] (phase %lld) for sin and cos", (long long)stride, (long long)phase);
+  SweepInfo si; bool thorough = ctx.tier == "thorough"; int64_t stride = 1, phase = thorough ? 0 : (int64_t)(ctx.seed % stride);
+  si.exhaustive = true; si.note = true ? "every raw x in [-411774, 411774] for sin and cos" : strf("every %lld-th raw x in [-411774, 411774] (phase %lld) for sin and cos", (long long)stride, (long long)phase);
   uint64_t idx = 0;
   for (int64_t x = -411774 + phase; x <= 411774; x += stride) { if (!mine(ctx, ++idx)) continue; ctx.evaluate(cl, { 0, x }); ctx.evaluate(cl, { 1, x }); }
   return si;
 }
 static Reg r_c09_acc({ "C09.acc", "C09", "sweep",
-  "every raw x with |x| <= 2*pi (823,549 values; every 4th with a seed-dependent phase in the quick tier) x {sin, cos}; oracle: |lib - sinl(x)| <= 4 ulp + r^9/9! with r = |asinl(sinl x)| (cos alike) and |result| <= 1.0; non-trivial = r > 1.2 or |x| beyond pi/2 (fold or range reduction executed); distinct by construction",
+  "every raw x with |x| <= 2*pi (823,549 values, every run) x {sin, cos}; oracle: |lib - sinl(x)| <= 4 ulp + r^9/9! with r = |asinl(sinl x)| (cos alike) and |result| <= 1.0; non-trivial = r > 1.2 or |x| beyond pi/2 (fold or range reduction executed); distinct by construction",
   c09_acc_check, 0, nullptr, c09_acc_sweep });
 
 static void c09_period_check(Ctx& ctx, const Args& a)
@@ -97,14 +97,14 @@ static void c10_acc_check(Ctx& ctx, const Args& a)
 }
 static SweepInfo c10_acc_sweep(Ctx& ctx, const Clause& cl)
 {
-  SweepInfo si; bool thorough = ctx.tier == "thorough"; int64_t stride = thorough ? 1 : 2, phase = thorough ? 0 : (int64_t)(ctx.seed % stride);
-  si.exhaustive = thorough; si.note = thorough ? "every raw x in [-205887, 205887]" : strf("every %lld-th raw x in [-205887, 205887] (phase %lld)", (long long)stride, (long long)phase);
+  SweepInfo si; bool thorough = ctx.tier == "thorough"; int64_t stride = 1, phase = thorough ? 0 : (int64_t)(ctx.seed % stride);
+  si.exhaustive = true; si.note = true ? "every raw x in [-205887, 205887]" : strf("every %lld-th raw x in [-205887, 205887] (phase %lld)", (long long)stride, (long long)phase);
   uint64_t idx = 0;
   for (int64_t x = -205887 + phase; x <= 205887; x += stride) { if (!mine(ctx, ++idx)) continue; ctx.evaluate(cl, { x }); }
   return si;
 }
 static Reg r_c10_acc({ "C10.acc", "C10", "sweep",
-  "every raw x with |x| <= pi (411,775 values; every 2nd in the quick tier) except +-(the library's pi/2 constant); oracle: |lib - tanl(x)| <= 2.5 ulp * (1 + tanl(x)^2), not NaN; non-trivial = |x| in (pi/4, pi/2) (reciprocal branch), |x| > pi/2, or within 64 raw of the pole; distinct by construction",
+  "every raw x with |x| <= pi (411,775 values, every run) except +-(the library's pi/2 constant); oracle: |lib - tanl(x)| <= 2.5 ulp * (1 + tanl(x)^2), not NaN; non-trivial = |x| in (pi/4, pi/2) (reciprocal branch), |x| > pi/2, or within 64 raw of the pole; distinct by construction",
   c10_acc_check, 0, nullptr, c10_acc_sweep });
 
 // args: kind (0 oddness, 1 period, 2 pole), x, k
@@ -167,7 +167,7 @@ static void c11_atan_check(Ctx& ctx, const Args& a)
 static SweepInfo c11_atan_sweep(Ctx& ctx, const Clause& cl)
 {
   SweepInfo si; bool thorough = ctx.tier == "thorough";
-  int exbits = thorough ? 23 : 18; uint64_t per = thorough ? 4000000 : 20000;
+  int exbits = thorough ? 23 : 20; uint64_t per = thorough ? 4000000 : 60000;
   si.note = strf("exhaustive on raw [0, 2^%d) and its mirror image; lattice of %llu values per bit length %d..47 (offset from VERIF_SEED); segment boundaries +-64", exbits, (unsigned long long)per, exbits + 1);
   uint64_t idx = 0;
   for (int64_t x = 0; x < ((int64_t)1 << exbits); ++x) { if (!mine(ctx, ++idx)) continue; ctx.evaluate(cl, { x }); }
@@ -176,7 +176,7 @@ static SweepInfo c11_atan_sweep(Ctx& ctx, const Clause& cl)
   return si;
 }
 static Reg r_c11_atan({ "C11.atan", "C11", "sweep",
-  "raw x with |x| < 2^47: exhaustive on [0, 2^18) quick / [0, 2^23) thorough (oddness checks the mirror image), a seed-offset lattice per bit length up to 47, and the four segment boundaries +-64; oracle: |lib - atanl(x)| <= 5e-5, atan(-x) == -atan(x) exactly, |atan(x)| <= the library's pi/2 constant; non-trivial = |x| > 39/16, within 64 raw of a segment boundary, or |raw| >= 2^29; distinct by construction",
+  "raw x with |x| < 2^47: exhaustive on [0, 2^20) quick / [0, 2^23) thorough (oddness checks the mirror image), a seed-offset lattice per bit length up to 47, and the four segment boundaries +-64; oracle: |lib - atanl(x)| <= 5e-5, atan(-x) == -atan(x) exactly, |atan(x)| <= the library's pi/2 constant; non-trivial = |x| > 39/16, within 64 raw of a segment boundary, or |raw| >= 2^29; distinct by construction",
   c11_atan_check, 0, nullptr, c11_atan_sweep });
 
 static void c11_mono_check(Ctx& ctx, const Args& a)
@@ -314,7 +314,7 @@ static void c13_check(Ctx& ctx, const Args& a)
 }
 static SweepInfo c13_sweep(Ctx& ctx, const Clause& cl)
 {
-  SweepInfo si; bool thorough = ctx.tier == "thorough"; int exbits = thorough ? 22 : 17; uint64_t per = thorough ? 2000000 : 20000;
+  SweepInfo si; bool thorough = ctx.tier == "thorough"; int exbits = thorough ? 22 : 19; uint64_t per = thorough ? 2000000 : 40000;
   si.note = strf("exhaustive on raw [0, 2^%d); lattice of %llu values per bit length %d..47 (offset from VERIF_SEED); perfect squares k^2/2^16 for k = 256*j; each through sqrt, detail::sqrt_abacus and detail::sqrt_std_math", exbits, (unsigned long long)per, exbits + 1);
   uint64_t idx = 0;
   for (int64_t x = 0; x < ((int64_t)1 << exbits); ++x) if (mine(ctx, ++idx)) ctx.evaluate(cl, { x });
@@ -325,7 +325,7 @@ static SweepInfo c13_sweep(Ctx& ctx, const Clause& cl)
   return si;
 }
 static Reg r_c13({ "C13.sqrt", "C13", "sweep",
-  "raw x in [0, 2^47): exhaustive on [0, 2^17) quick / [0, 2^22) thorough, seed-offset lattice per bit length up to 47, perfect squares (256 j)^2/2^16, each through sqrt, detail::sqrt_abacus and detail::sqrt_std_math on every configuration; oracle (integers only): s >= 0 and (s-1)^2 < x*2^16 < (s+1)^2, sqrt(x+1 raw) >= sqrt(x), sqrt(0) == 0; non-trivial = raw >= 2^22 (beyond anything the suite samples), in particular the top binade [2^46, 2^47); distinct by construction",
+  "raw x in [0, 2^47): exhaustive on [0, 2^19) quick / [0, 2^22) thorough, seed-offset lattice per bit length up to 47, perfect squares (256 j)^2/2^16, each through sqrt, detail::sqrt_abacus and detail::sqrt_std_math on every configuration; oracle (integers only): s >= 0 and (s-1)^2 < x*2^16 < (s+1)^2, sqrt(x+1 raw) >= sqrt(x), sqrt(0) == 0; non-trivial = raw >= 2^22 (beyond anything the suite samples), in particular the top binade [2^46, 2^47); distinct by construction",
   c13_check, 0, nullptr, c13_sweep });
 static Args c13_rc_decode(Ctx&, Dec& d)
 {
